@@ -150,6 +150,9 @@ def rel_dev(a, b):
     return float(np.max(np.abs(a - b)) / s) if s > 0 else float('inf')
 
 
+AMPS = (1.0, 1e-5, 1e4)
+
+
 def obs_events(chk):
     rng = np.random.RandomState(8100 + chk.seed)
     batch = obs.Batch('ObsC08')
@@ -162,16 +165,20 @@ def obs_events(chk):
                 x = np.cos(0.9 * t) + 0.5 * rng.randn(n)
                 if dt == 'complex':
                     x = x * np.exp(0.4j * t) + 0.5j * rng.randn(n)
+                # every clause is a ratio of two estimates of the same data: the amplitude of the data is free
+                amp = AMPS[getattr(chk, '_c08_amp', 0) % len(AMPS)]
+                chk._c08_amp = getattr(chk, '_c08_amp', 0) + 1
+                x = x * amp
                 nfft = int(rng.choice([n, 64, 65, 128]))
                 s1 = float(10 ** rng.uniform(-2, 5))
                 s2 = float(10 ** rng.uniform(-2, 5))
-                ev = {'ev': 'normalisation', 'cls': name, 'family': FAMILY[name], 'dt': dt, 'nfft': nfft}
+                ev = {'ev': 'normalisation', 'cls': name, 'family': FAMILY[name], 'dt': dt, 'nfft': nfft, 'amp': repr(amp)}
                 try:
                     pF = build(name, x, nfft, s1, False)
                     pT = build(name, x, nfft, s1, True)
                     p2 = build(name, x, nfft, s2, False)
                     vF, vT, v2 = np.array(pF.psd), np.array(pT.psd), np.array(p2.psd)
-                    df = s1 / pF.NFFT
+                    df = s1 / nfft          # the requested NFFT (what the object reads back is checked by df_dev)
                     ev['raised'] = False
                     ev['scale_dev'] = obs.q(rel_dev(vT, vF * (2 * math.pi / df)))
                     ev['scale_twice_dev'] = obs.q(rel_dev(vT, vF * (2 * math.pi / df) ** 2))
@@ -182,7 +189,7 @@ def obs_events(chk):
                     f1 = np.array(pF.frequencies())
                     f2 = np.array(p2.frequencies())
                     ev['axis_dev'] = obs.q(rel_dev(f2 * (s1 / s2), f1)) if len(f1) > 1 else 0
-                    ev['df_dev'] = obs.q(abs(pF.df - s1 / pF.NFFT) / (s1 / pF.NFFT))
+                    ev['df_dev'] = obs.q(max(abs(pF.df - s1 / nfft) / (s1 / nfft), abs(pT.df - s1 / nfft) / (s1 / nfft), 0.0 if (pF.NFFT == nfft and pT.NFFT == nfft) else 1.0))
                     ev['len_ok'] = bool(len(f1) == len(vF) == len(f2) == len(v2) == len(vT))
                 except Exception as e:  # noqa
                     ev['raised'] = True
@@ -231,6 +238,10 @@ def run(chk):
     core.run_jobs(chk, arma_jobs(chk))
     protocol_traces(chk)
     obs_events(chk)
+    # "changing the sampling frequency rescales the frequency axis proportionally": the axis sweep of C06
+    # (ObsC06.tla: every entry is its bin times sampling/NFFT) over NFFT up to 1024 x 13 sampling rates
+    from .C06 import axis_events
+    axis_events(chk, prefix='C08', stride=4)
 
 
 def replay_case(chk, sig, case):
